@@ -248,7 +248,7 @@ def replay_periods_script(r, idx):
     just after it (still within its lifetime) has to be found in the other period's entries."""
     lv = r.choice([1000, 1500, 2000])
     cfg = base_cfg(r, clients=2, incoming=r.choice(["validate", "validate", "accept"]),
-                   token_store="", token_log=r.choice(["default", "bloom:100000:100", "bloom:200000:100"]),
+                   token_store="cache:4:4", token_log=r.choice(["default", "bloom:100000:100", "bloom:200000:100"]),
                    validation_token_lifetime_ms=lv, retry_token_lifetime_ms=15000)
     cfg["new_tokens"] = r.choice([2, 3, 4])
     t = {"idle_ms": 1200}
@@ -260,9 +260,16 @@ def replay_periods_script(r, idx):
         # a second generation of tokens, issued part of a lifetime later
         steps += [{"do": "connect", "n": 2}, {"do": "run_until", "what": "connected", "max_us": 3000000},
                   {"do": "run", "us": r.choice([50000, lv * 300])}]
+    m = cfg["new_tokens"]
     for k in range(r.choice([6, 10, 16])):
-        steps.append({"do": "token", "op": "force", "src": {"k": "new", "i": r.choice([0, 0, 1, 2, -1])}, "mut": []})
-        steps.append({"do": "run", "us": r.choice([1000, lv * 100, lv * 250, lv * 400, lv * 700])})
+        # a fresh token (the newest one) is used - the connection it validates brings m new ones -
+        steps.append({"do": "token", "op": "force", "src": {"k": "new", "i": -1}, "mut": []})
+        steps.append({"do": "connect", "n": r.choice([1, 1, 2])})
+        steps.append({"do": "run", "us": r.choice([60000, lv * 100, lv * 300, lv * 500])})
+        # ... and one that has been used before is presented again, part of a lifetime later
+        steps.append({"do": "token", "op": "force", "src": {"k": "new", "i": r.choice([-(m + 1), -(m + 1), -(2 * m + 1), 0, 1])}, "mut": []})
+        steps.append({"do": "connect", "n": r.choice([1, 1, 2])})
+        steps.append({"do": "run", "us": r.choice([60000, lv * 100, lv * 300, lv * 500, lv * 800])})
     steps.append({"do": "run", "us": 500000})
     return {"cfg": cfg, "steps": steps, "tag": {"family": "replay-periods", "idx": idx}}
 
